@@ -21,18 +21,21 @@
 (* surface to the contract monitor ConnMgr!OnEvent; the invariant          *)
 (* NoContractViolation is Impl => Contract.                                *)
 (*                                                                         *)
+(* MaxRuns > 1 lets the environment call connect_loop() again after it has *)
+(* returned (and close() between two runs).                                *)
+(*                                                                         *)
 (* Fixed = TRUE is the repaired tree (cancel both tasks after the first    *)
 (* wait, close a transport obtained concurrently with close(), cancel the  *)
 (* second waiter); Fixed = FALSE is the pinned tree 22a5dfc, on which TLC  *)
 (* finds attempt_after_close, transport_left_open and too_many_tasks.      *)
 (***************************************************************************)
 EXTENDS ConnMgr, Integers, TLC
-CONSTANTS Fixed, MaxAtt, Horizon, SlowLat, MaxDelay, BrkThr, BrkSleep, ModelTaskBound
+CONSTANTS Fixed, MaxAtt, Horizon, SlowLat, MaxDelay, BrkThr, BrkSleep, ModelTaskBound, MaxRuns
 Tasks == 1..(MaxAtt + 1)
 Cfg == [max_delay |-> MaxDelay, threshold |-> BrkThr, sleep |-> BrkSleep]
 
-VARIABLES now, closing, closeCalled, conn, mpc, task, tr, pdone, delay, lastLoss, brk, waiters, natt, nspawn, mon
-vars == <<now, closing, closeCalled, conn, mpc, task, tr, pdone, delay, lastLoss, brk, waiters, natt, nspawn, mon>>
+VARIABLES now, closing, closeCalled, conn, mpc, task, tr, pdone, delay, lastLoss, brk, waiters, natt, nspawn, mon, runs
+vars == <<now, closing, closeCalled, conn, mpc, task, tr, pdone, delay, lastLoss, brk, waiters, natt, nspawn, mon, runs>>
 
 NoTask == [st |-> "none", at |-> 0, oc |-> "na", id |-> -1]        \* id = number of the attempt (factory call) made by this task
 Pending == Cardinality({k \in Tasks : task[k].st \in {"start", "sleep", "factory"}}) + waiters
@@ -41,7 +44,7 @@ Feed(m, evs) == LET r == FoldLeft(LAMBDA s, e : OnEvent(Cfg, s, e), m, evs) IN [
 
 Init == /\ now = 0 /\ closing = FALSE /\ closeCalled = FALSE /\ conn = 0
         /\ mpc = "top" /\ task = [k \in Tasks |-> NoTask] /\ tr = [k \in Tasks |-> "none"] /\ pdone = [k \in Tasks |-> FALSE]
-        /\ delay = 0 /\ lastLoss = -1 /\ brk = FALSE /\ waiters = 0 /\ natt = 0 /\ nspawn = 0 /\ mon = S0
+        /\ delay = 0 /\ lastLoss = -1 /\ brk = FALSE /\ waiters = 0 /\ natt = 0 /\ nspawn = 0 /\ mon = S0 /\ runs = 1
 
 CurDelay == MinI(delay, MaxDelay)                                                   \* back_off_connect_error.current_delay_sec
 BackOffTime == IF CurDelay > 0 \/ brk THEN MaxI(CurDelay, IF brk THEN BrkSleep ELSE 0) ELSE 0      \* _get_back_off_time
@@ -127,8 +130,17 @@ Ready == \/ mpc = "top" \/ \E k \in Tasks : task[k].st = "start" \/ (task[k].st 
          \/ (mpc = "wait1" /\ (task[Cur].st = "fin" \/ closing)) \/ (mpc = "wait2" /\ (closing \/ (conn # 0 /\ pdone[conn])))
 Tick == /\ ~Ready /\ now < Horizon /\ now' = now + 1
         /\ UNCHANGED <<closing, closeCalled, conn, mpc, task, tr, pdone, delay, lastLoss, brk, waiters, natt, nspawn, mon>>
-Next == MainStart \/ MainWake1 \/ MainWake2 \/ MainWake2b \/ EnvClose \/ Tick
-        \/ \E k \in Tasks : TaskStart(k) \/ TaskWake(k) \/ TaskFactoryDone(k) \/ EnvLoss(k)
+\* connect_loop() called again after it returned; close() while no run is in progress only sets the closing event
+EnvRestart == /\ mpc = "done" /\ runs < MaxRuns /\ runs' = runs + 1 /\ mpc' = "top" /\ closeCalled' = FALSE
+              /\ mon' = Feed(mon, <<Ev("start", 0, FALSE, FALSE)>>)
+              /\ UNCHANGED <<now, closing, conn, task, tr, pdone, delay, lastLoss, brk, waiters, natt, nspawn>>
+EnvCloseIdle == /\ mpc = "done" /\ ~closing /\ runs < MaxRuns /\ closing' = TRUE
+                /\ mon' = Feed(mon, <<Ev("close", 0, FALSE, FALSE)>>)
+                /\ UNCHANGED <<now, closeCalled, conn, mpc, task, tr, pdone, delay, lastLoss, brk, waiters, natt, nspawn, runs>>
+Next == \/ (/\ (MainStart \/ MainWake1 \/ MainWake2 \/ MainWake2b \/ EnvClose \/ Tick
+               \/ \E k \in Tasks : TaskStart(k) \/ TaskWake(k) \/ TaskFactoryDone(k) \/ EnvLoss(k))
+            /\ UNCHANGED runs)
+        \/ EnvRestart \/ EnvCloseIdle
 Spec == Init /\ [][Next]_vars
 
 \* ---- Impl => Contract
